@@ -408,7 +408,9 @@ def tie_part(run, r, model, sim, cases, d):
                         run.mismatch("omp-distribution:smp-vs-serial", {"case": c, "step": t, "threads": nto, "items": len(st["items"])}, got, want)
                         break
         # --- tie: implementation (under the schedule) vs model, and serial implementation vs serial model
-        for which, steps_i, mo in (("smp", isteps, mout[k] if k < len(mout) else ""), ("serial", ssteps, mout[n + k] if n + k < len(mout) else "")):
+        lib_serial = c["smp"] == "omp" and c.get("smpkey") in ("off", "inner_loop")     # the library itself takes the serial path
+        for which, steps_i, mo in (("smp", isteps, mout[n + k if lib_serial else k] if (n + k if lib_serial else k) < len(mout) else ""),
+                                   ("serial", ssteps, mout[n + k] if n + k < len(mout) else "")):
             ms = parse_model(mo)
             for t in range(len(c["steps"])):
                 if t >= len(ms):
@@ -1186,6 +1188,14 @@ def derive_rich_footprints(sim, cases, d):
         for l in out:
             if l.startswith("FP "):
                 kind, R, W = parse_fp_line(l)
+                w = l.split()
+                if w[1] == "bias" and w[2].isdigit() and int(w[2]) < len(c["biases"]):
+                    b = c["biases"][int(w[2])]
+                    stateless = b["kind"] in ("harmonic", "walls", "linear") and not any("targetCenters" in x for x in b["lines"])
+                    if not stateless and "NOTREPEATABLE" not in l:
+                        # a bias with private state (hills, samples, moving centres): the perturbation probe cannot tell what it reads
+                        R = []
+                        nrep += 1
                 if "NOTREPEATABLE" in l:
                     nrep += 1
                 fps[kind].append((R, W))
